@@ -18,6 +18,7 @@ import PybtexModel.Drv.Json
 import PybtexModel.Spec.RichText
 import PybtexModel.Spec.RichTextU
 import PybtexModel.Gen.RichText
+import PybtexModel.Spec.RichTextApi
 open Lean
 namespace Pybtex.Drv.C08
 open Pybtex.RT
@@ -347,7 +348,130 @@ def richtext (j : Json) : Except String Json := do
   let r ← if fan == some true then runFan t a ops else runBoth t a ops
   pure (obj [("out", arr (snapModel t Json.null :: r.1)), ("spec", arr (snapSpec a Json.null :: r.2))])
 
+/-! ### function-level ops for the API surface (`Model/RichTextApi.lean`) and for the helpers of the constructor / slicing -/
+
+/-- arg ::= "chars" | {"ty": type name} | {"c": "string"|"text"|"prot", "a": [arg…]} | {"c": "symbol", "n": "name"}
+         | {"c": "tag", "n": arg, "a": [arg…]} | {"c": "href", "u": arg, "e": bool, "a": [arg…]} -/
+def parseArg : Nat → Json → Except String Arg
+  | 0, _ => throw "expression nested too deeply for the driver"
+  | fuel + 1, j =>
+    match j with
+    | .str s => pure (.str s.toList)
+    | _ => do
+      match j.getObjVal? "ty" with
+      | .ok ty => pure (.other (← jsonToStr ty))
+      | .error _ =>
+        let c ← (← j.getObjVal? "c").getStr?
+        if c == "symbol" then pure (.symbol (← getStr j "n"))
+        else
+          let as ← (← getArr j "a").mapM (parseArg fuel)
+          match c with
+          | "string" => pure (.string as)
+          | "text" => pure (.text as)
+          | "prot" => pure (.prot as)
+          | "tag" => pure (.tag (← parseArg fuel (← j.getObjVal? "n")) as)
+          | "href" => pure (.href (← parseArg fuel (← j.getObjVal? "u")) (← getBool j "e") as)
+          | _ => throw s!"unknown constructor {c}"
+
+def kerrJ : KErr → Json
+  | .indexError => Json.str "IndexError"
+  | .notImplemented => Json.str "NotImplementedError"
+  | .typeError => Json.str "TypeError"
+  | .valueError => Json.str "ValueError"
+
+def rtCtor (j : Json) : Except String Json := do
+  let a ← parseArg 64 (← j.getObjVal? "expr")
+  let out : Json := match eval a with
+    | .ok (.rt t) => obj [("ok", valModel t), ("warn", nat (warnings a))]
+    | .ok (.str s) => obj [("str", strToJson s)]
+    | .ok (.other ty) => obj [("other", strToJson ty)]
+    | .error (.valueError msg) => obj [("err", Json.str "ValueError"), ("msg", strToJson msg)]
+    | .error .typeError => obj [("err", Json.str "TypeError")]
+  -- the reference value: class and string of pairs the expression denotes (`Spec/RichTextApi.lean`), if it is well typed
+  let spec : Json := if Arg.wellTyped a then (match Arg.absOf a with
+      | some x => obj [("ok", obsSpec x)]
+      | none => Json.null) else obj [("err", Json.bool true)]
+  pure (obj [("out", out), ("spec", spec)])
+
+def parseKey (j : Json) : Except String Key := do
+  match j.getObjVal? "int" with
+  | .ok v => pure (.int (← v.getInt?))
+  | .error _ =>
+    match j.getObjVal? "other" with
+    | .ok _ => pure .other
+    | .error _ => pure (.slice (← optInt j "i") (← optInt j "j") (← optInt j "k"))
+
+/-- `{"op": "rt_getitem", "tree": tree, "keys": [key…]}`: `text[key]` for every key; spec = the extended slice of the string of pairs -/
+def rtGetitem (j : Json) : Except String Json := do
+  let raw ← tree (← j.getObjVal? "tree")
+  let t := build raw
+  let a := abs raw
+  let keys ← (← getArr j "keys").mapM parseKey
+  let outs := keys.map fun k => match getItemKey t k with
+    | .ok r => valModel r
+    | .error e => arr [Json.str "", kerrJ e]
+  let specs := keys.map fun k => match Abs.getItemKey a k with
+    | .ok r => valSpec r
+    | .error e => kerrJ e
+  pure (obj [("out", tableJ outs), ("spec", tableJ specs)])
+
+/-- `{"op": "rt_contains", "tree": tree, "items": ["str" | null…]}`: `item in text`; null = a value that is not a `str` -/
+def rtContains (j : Json) : Except String Json := do
+  let raw ← tree (← j.getObjVal? "tree")
+  let t := build raw
+  let items ← (← getArr j "items").mapM fun (x : Json) => match x with
+    | .null => pure Item.other
+    | v => do pure (Item.str (← jsonToStr v))
+  let outs := items.map fun it => match containsVal t it with
+    | .ok b => Json.bool b
+    | .error e => kerrJ e
+  pure (obj [("out", arr outs), ("spec", Json.null)])
+
+/-- `{"op": "rt_splitbad", "tree": tree, "sep": "empty"|"type", "keep": bool|null}` -/
+def rtSplitBad (j : Json) : Except String Json := do
+  let raw ← tree (← j.getObjVal? "tree")
+  let t := build raw
+  let sep ← (← j.getObjVal? "sep").getStr?
+  let bs : BadSep := if sep == "empty" then .empty else .wrongType
+  let keep ← optBool j "keep"
+  let out : Json := match splitBad bs t keep with
+    | .ok parts => arr (parts.map partModel)
+    | .error e => kerrJ e
+  -- reference: raises iff the text has a String outside Protected; otherwise nothing is split
+  let spec : Json := if hasFreeStr t then kerrJ bs.err else Json.null
+  pure (obj [("out", out), ("spec", spec)])
+
+/-- `{"op": "rt_fn", "fn": "slice_beginning"|"slice_end", "tree": tree, "ns": [int…]}` (the private helpers of `__getitem__` called
+directly, any integer), `{"fn": "merge_similar", "parts": [tree…]}` (`Text()._merge_similar(parts)` on built objects),
+`{"fn": "typeinfo"|"unpack", "tree": tree}` -/
+def rtFn (j : Json) : Except String Json := do
+  let fn ← (← j.getObjVal? "fn").getStr?
+  match fn with
+  | "merge_similar" =>
+    let ps ← (← getArr j "parts").mapM tree
+    pure (obj [("out", arr ((mergeSimilar (ps.map build)).map fun p => packed (treeJ p))), ("spec", Json.null)])
+  | _ =>
+    let raw ← tree (← j.getObjVal? "tree")
+    let t := build raw
+    match fn with
+    | "typeinfo" =>
+      let r : Json := match typeInfo t with
+        | .none => arr [Json.null]
+        | .string => arr [Json.str "String"]
+        | .multi k => topJ (.multi k)
+      pure (obj [("out", r), ("spec", Json.null)])
+    | "unpack" => pure (obj [("out", arr ((unpack t).map fun p => packed (treeJ p))), ("spec", Json.null)])
+    | "slice_beginning" | "slice_end" =>
+      let ns ← (← getArr j "ns").mapM fun (x : Json) => x.getInt?
+      match t with
+      | .node k ps =>
+        let f := if fn == "slice_beginning" then sliceBeginning k ps else sliceEnd k ps
+        pure (obj [("out", tableJ (ns.map fun n => valModel (f n))), ("spec", Json.null)])
+      | _ => throw "slice_beginning / slice_end need a multipart text"
+    | _ => throw s!"unknown fn {fn}"
+
 /-- driver ops of this property: (op name, handler) -/
-def handlers : List (String × (Json → Except String Json)) := [("richtext", richtext)]
+def handlers : List (String × (Json → Except String Json)) := [("richtext", richtext), ("rt_ctor", rtCtor), ("rt_getitem", rtGetitem), ("rt_contains", rtContains),
+   ("rt_splitbad", rtSplitBad), ("rt_fn", rtFn)]
 
 end Pybtex.Drv.C08
